@@ -63,7 +63,17 @@ var c12Cmds = []struct {
 	{consts.P8202TmpLocationTrack, 0x1205},
 }
 
+// c12RaceOnly: command / response pairs that take part only when the scenarios run for the race detector (C18): the 0x1003
+// answer to 0x9003 carries no serial, so C12's oracle cannot attribute it, but the code path exists and must be race-free.
+var c12RaceOnly = []struct {
+	Cmd  consts.JT808CommandType
+	Resp uint16
+}{{consts.P9003QueryTerminalAudioVideoProperties, 0x1003}}
+
 func c12RespType(cmd uint16) uint16 {
+	if svc.RaceMode && cmd == 0x9003 {
+		return 0x1003
+	}
 	for _, x := range c12Cmds {
 		if uint16(x.Cmd) == cmd {
 			return x.Resp
@@ -89,6 +99,8 @@ func c12Response(cmdID, pserial uint16, token uint32) (id uint16, body []byte) {
 		return 0x1205, append(s, 0, 0, 0, 0)
 	case 0x1206:
 		return 0x1206, append(s, byte(token))
+	case 0x1003:
+		return 0x1003, []byte{1, 2, 3, 4, 0, 5, 1, 1, 8, 8}
 	}
 	return 0, nil
 }
@@ -305,6 +317,12 @@ func c12Run(srv *svc.Server, sc c12Scenario, r *core.Rand) (viol [][2]string, in
 					t.Write(respond(s, uint32(s.tag), 0))
 				case "unknown-serial-first":
 					t.Write(respond(s, 0xdead, 1000))
+					// and cut-down / malformed frames of every response type (the first 0..4 bytes of a body echoing an unknown
+					// serial): whatever the parsers make of them, they complete nobody's command
+					for _, rid := range []uint16{0x0805, 0x0104, 0x1205, 0x1206, 0x0001} {
+						full := []byte{0xde, byte(0xa0 + cmds%16), 0x01, 0x00, 0x01}
+						t.Write(t.Frame(rid, uint16(0x5000+respSerial.Add(1)), full[:cmds%5+int(rid%3)%2]))
+					}
 					traffic()
 					answer(s)
 				case "never":
@@ -352,6 +370,9 @@ func c12Run(srv *svc.Server, sc c12Scenario, r *core.Rand) (viol [][2]string, in
 		for k := 0; k < sc.Callers; k++ {
 			wg.Add(1)
 			cmd := c12Cmds[r.Intn(len(c12Cmds))]
+			if svc.RaceMode && r.Chance(1, 6) {
+				cmd = c12RaceOnly[0]
+			}
 			go func(ti int, ts *termState, k int) {
 				defer wg.Done()
 				tag := c12Tag.Add(1)<<16 | uint64(ti)<<8 | uint64(k&0x7f)
@@ -563,8 +584,8 @@ func c12Worker(c *core.Collector, x *Ctx) {
 		svc.YieldLevel.Store(0)
 		// pre-rolled terminals: the commands get platform serials around the wrap (65530..), around 125/126 (low byte 7d / 7e:
 		// the serial is escaped on the wire) and around 0x7d00 / 0x7e7e (high byte, both bytes)
-		for wi, pre := range []int{65530, 119, 0x7d00 - 6, 0x7e7e - 6} {
-			sc := c12Scenario{Script: []string{"reversed-one-write", "inorder"}[wi%2], Terms: 1, Callers: 12, TimeoutMs: 2000, Base: 2900000 + wi*10, Traffic: true, PreRoll: pre}
+		for wi, pre := range []int{65530, 119, 0x7d00 - 6, 0x7e7e - 6, 65530} {
+			sc := c12Scenario{Script: []string{"reversed-one-write", "inorder", "reversed-one-write", "inorder", "unknown-serial-first"}[wi], Terms: 1, Callers: 12, TimeoutMs: 2000, Base: 2900000 + wi*10, Traffic: true, PreRoll: pre}
 			viol, incon, _, calls := c12Run(srv, sc, core.NewRand(c.Seed, "c12wrap", uint64(wi)))
 			c.Evals(int64(len(calls)))
 			c.Count("wrap_scenarios", 1)
